@@ -6,6 +6,7 @@ package zzverif
 
 import (
 	"fmt"
+	"github.com/verily-src/fhirpath-go/fhirpath/system"
 	"strconv"
 	"strings"
 	"testing"
@@ -23,6 +24,9 @@ type c05Case struct {
 	LitB bool   `json:"litb"`
 	CA   []Val  `json:"ca,omitempty"` // collection operands
 	CB   []Val  `json:"cb,omitempty"`
+	// Alias: the second collection is a prefix view of the first one's backing array
+	// (what take(n) returns): equality is by value and length, not by storage
+	Alias bool `json:"alias,omitempty"`
 }
 
 var c05Pool = func() []Val {
@@ -527,6 +531,9 @@ func c05GenColl(s Src) c05Case {
 	case 4: // different length
 		cb = cb[:n-1]
 	}
+	if s.Prob(15) {
+		return c05Case{Kind: "coll", CA: ca, CB: ca[:s.Range(0, n)], Alias: true}
+	}
 	return c05Case{Kind: "coll", CA: ca, CB: cb}
 }
 
@@ -537,8 +544,20 @@ func c05RunColl(ctx *Ctx, c c05Case) {
 		ctx.Fail("harness: cannot build collection", fmt.Sprint(err1, err2))
 		return
 	}
+	if c.Alias {
+		if ca, ok := ba.(system.Collection); ok && len(c.CB) <= len(ca) {
+			bb = ca[:len(c.CB)]
+		}
+	}
 	vars := map[string]any{"a": ba, "b": bb}
 	eq, req, ne := c05Eval("=", "%a", "%b", vars), c05Eval("=", "%b", "%a", vars), c05Eval("!=", "%a", "%b", vars)
+	if c.Alias && len(c.CB) > 0 {
+		// the same comparison spelled inside the language
+		if got := c05Eval("=", "%a", fmt.Sprintf("%%a.take(%d)", len(c.CB)), vars); got != eq {
+			ctx.Fail("collection equality: `%a = %a.take(n)` differs from comparing with the same prefix held in another variable", fmt.Sprintf("a=%v n=%d: %s vs %s", c.CA, len(c.CB), got, eq))
+			return
+		}
+	}
 	// model: same length and every pair equal
 	want := "T"
 	hasComplex, diffAt := false, -1
